@@ -68,6 +68,13 @@ def build(ps, P, names, order, shape, pbname="pb"):
         objs["sel"] = sel
         o.add_required_resource(sel)
         s.add_required_resource(W)
+    elif shape == "select2":
+        # two selections with names of their own, over the same two workers
+        sel1 = ps.SelectWorkers(name=names["sel1"], list_of_workers=[W, V], nb_workers_to_select=1)
+        sel2 = ps.SelectWorkers(name=names["sel2"], list_of_workers=[W, V], nb_workers_to_select=1)
+        objs["sel"], objs["sels"] = sel1, [sel1, sel2]
+        o.add_required_resource(sel1)
+        s.add_required_resource(sel2)
     elif shape == "distance2":
         # the optional task holds W directly, another task chooses between W and V
         sel = ps.SelectWorkers(list_of_workers=[W, V], nb_workers_to_select=1)
@@ -123,15 +130,15 @@ def preconditions(P):
     P.assume(P.int("glen") >= 0)
 
 
-NAMES_1 = dict(a="a", o="o", s="s", W="W", V="V", prec="cprec", start="cstart", extra="cextra", ind="ind")
-NAMES_2 = dict(a="alpha", o="omega", s="sigma", W="Worker9", V="v", prec="c1", start="c2", extra="c3", ind="myindicator")
+NAMES_1 = dict(a="a", o="o", s="s", W="W", V="V", prec="cprec", start="cstart", extra="cextra", ind="ind", sel1="sel1", sel2="sel2")
+NAMES_2 = dict(a="alpha", o="omega", s="sigma", W="Worker9", V="v", prec="c1", start="c2", extra="c3", ind="myindicator", sel1="pick", sel2="choice")
 ORDER_0 = dict(tasks=("a", "o", "s"), workers=("W", "V"), constraints=("prec", "start", "extra"))
-SHAPES = ("plain", "select", "workload", "indicator", "distance", "distance2", "distance3", "group", "twins")
+SHAPES = ("plain", "select", "select2", "workload", "indicator", "distance", "distance2", "distance3", "group", "twins")
 # names may be shared across kinds (each kind has its own registry): a constraint, an indicator or a worker
 # called like a task
-NAMES_3 = dict(a="a", o="o", s="s", W="a", V="o", prec="a", start="o", extra="s", ind="a")
+NAMES_3 = dict(a="a", o="o", s="s", W="a", V="o", prec="a", start="o", extra="s", ind="a", sel1="a", sel2="o")
 # collision-free names whose concatenations coincide: "L" + "_" + "1_x" == "L_1" + "_" + "x"
-NAMES_4 = dict(a="1_x", o="x", s="y", W="L", V="L_1", prec="p_1", start="p", extra="1", ind="L_1_x")
+NAMES_4 = dict(a="1_x", o="x", s="y", W="L", V="L_1", prec="p_1", start="p", extra="1", ind="L_1_x", sel1="1_x", sel2="x")
 
 
 def norm(name):
@@ -258,8 +265,8 @@ class DeclarationOrder(Contract):
         out = []
         for tag, (X, Y, ox, oy) in (("1=>2", (A1, A2, o1, o2)), ("2=>1", (A2, A1, o2, o1))):
             if "sel" in ox:
-                # the selection flags are user-level decisions: the same in both runs (paired by worker)
-                fl = [(oy["sel"]._selection_dict[oy[w]], ox["sel"]._selection_dict[ox[w]]) for w in ("W", "V")]
+                # the selection flags are user-level decisions: the same in both runs (paired by selection and worker)
+                fl = [(sy._selection_dict[oy[w]], sx._selection_dict[ox[w]]) for sx, sy in zip(ox.get("sels", [ox["sel"]]), oy.get("sels", [oy["sel"]])) for w in ("W", "V")]
                 Y = [z3.substitute(f, *fl) for f in Y]
             primes, link = user_link(ox, oy, X, Y)
             subs = [(z3.Const(n, p.sort()), p) for n, p in primes.items()]
